@@ -35,6 +35,15 @@ fn noop_waker() -> Waker {
 type Fut<T> = Pin<Box<dyn Future<Output = T>>>;
 type Strm<T> = Pin<Box<dyn FStream<Item = T>>>;
 
+/// a request filter that bans one address
+#[derive(Debug, Clone)]
+struct DenyIp(Ipv4Addr);
+impl dht::RequestFilter for DenyIp {
+    fn allow_request(&self, _request: &dht::RequestSpecific, from: SocketAddrV4) -> bool {
+        *from.ip() != self.0
+    }
+}
+
 enum CallKind {
     PutQ(Fut<Result<Id, PutQueryError>>),
     PutM(Fut<Result<Id, dht::errors::PutMutableError>>),
@@ -739,6 +748,10 @@ impl Stream for NodeStream {
             settings.max_immutable_values = v[2];
             settings.max_mutable_values = v[3];
         }
+        // deny=<ip>: the configured request filter vetoes every request from this address
+        if let Some(ip) = kv(args, "deny") {
+            settings.filter = Box::new(DenyIp(Ipv4Addr::from(ip.parse::<u32>().expect("ip"))));
+        }
         // tid0=<n>: the socket's transaction id counter starts at n (wrap-around cases)
         verif::set_first_tid(kv(args, "tid0").map(|t| t.parse().expect("tid0")).unwrap_or(0));
         verif::prepare_bind(ip, seed | 1, false);
@@ -1368,13 +1381,15 @@ pub struct Driver<'a> {
     pub report_ip: Option<SocketAddrV4>,
     /// first transaction id of the node's socket (default 0)
     pub tid0: Option<u32>,
+    /// the node's request filter vetoes every request from this address
+    pub deny: Option<Ipv4Addr>,
     /// (request key, sender, message) of every answer delivered to the node
     pub delivered: Vec<(String, SocketAddrV4, MessageType)>,
 }
 
 impl<'a> Driver<'a> {
     pub fn new(out: &'a mut Out, seed: u64, net: VNet) -> Self {
-        Driver { s: NodeStream::new(), out, rng: Rng::new(seed), net, queue: vec![], latency: 5 * MS, seq: 0, next_call: 0, drop_pct: 0, dup_pct: 0, late_pct: 0, reachable: false, known: Default::default(), report_ip: None, tid0: None, delivered: vec![] }
+        Driver { s: NodeStream::new(), out, rng: Rng::new(seed), net, queue: vec![], latency: 5 * MS, seq: 0, next_call: 0, drop_pct: 0, dup_pct: 0, late_pct: 0, reachable: false, known: Default::default(), report_ip: None, tid0: None, deny: None, delivered: vec![] }
     }
     /// a peer sends a request to the node
     pub fn inject_request(&mut self, from: SocketAddrV4, requester: Id, rt: RequestTypeSpecific, ro: bool) {
@@ -1393,7 +1408,8 @@ impl<'a> Driver<'a> {
         self.next_call = 0;
         let ip = ip.map(|ip| format!(" ip={}", u32::from(ip))).unwrap_or_default();
         let tid0 = self.tid0.map(|t| format!(" tid0={t}")).unwrap_or_default();
-        self.out.begin(&mut self.s, &format!("node mode={mode} boot={b} pub={p}{ip}{tid0} seed={seed} t0={t0}"));
+        let deny = self.deny.map(|d| format!(" deny={}", u32::from(d))).unwrap_or_default();
+        self.out.begin(&mut self.s, &format!("node mode={mode} boot={b} pub={p}{ip}{tid0}{deny} seed={seed} t0={t0}"));
         self.run("init".into());
     }
     pub fn handle_sent(&mut self, sent: &[Sent]) {
@@ -2741,6 +2757,55 @@ pub fn run(out: &mut Out, seed: u64, thorough: bool, replay: Option<&str>) {
         d.finish();
         d.out.mark_distinct(fnv(format!("O{round}").as_bytes()));
         d.out.count("answers-of-the-wrong-shape");
+        d.s.shutdown();
+    }
+    // ---- P (C03): a server whose request filter bans one address.  Whatever that address sends — ping,
+    //          find_node, get, announce — gets no reply and changes nothing: not the stores, and not the
+    //          routing tables either (a banned node is not advertised to others).  The same requests from a
+    //          neighbouring address are served
+    for round in 0..(if thorough { 4 } else { 2 }) {
+        t0 += 10_000_000_000_000;
+        let net = VNet::new(&mut rng, 3, true);
+        let first_node = round % 2 == 0;
+        let boot: Vec<SocketAddrV4> = if first_node { vec![] } else { vec![net.peers[0].addr] };
+        let banned = SocketAddrV4::new(Ipv4Addr::new(10, 66, 0, 66), 6881);
+        let neighbour = SocketAddrV4::new(Ipv4Addr::new(10, 66, 0, 67), 6881);
+        let mut d = Driver::new(out, rng.next(), net);
+        d.deny = Some(*banned.ip());
+        d.begin("s", &boot, None, rng.next() % 1_000_000 + 1, t0);
+        d.run_for(2 * SEC, 10 * MS);
+        for (who, is_banned) in [(banned, true), (neighbour, false)] {
+            d.run("snap".into());
+            let before = d.s.last_snapshot.clone();
+            let sent_before = d.s.all_sent.len();
+            let rid = Id::from_bytes(d.rng.id20()).expect("id");
+            let ih = Id::from_bytes(d.rng.id20()).expect("id");
+            d.inject_request(who, rid, RequestTypeSpecific::Ping, false);
+            d.inject_request(who, rid, RequestTypeSpecific::FindNode(FindNodeRequestArguments { target: rid }), false);
+            d.inject_request(who, rid, RequestTypeSpecific::GetPeers(GetPeersRequestArguments { info_hash: ih }), false);
+            d.inject_request(who, rid, RequestTypeSpecific::GetValue(GetValueRequestArguments { target: ih, seq: None, salt: None }), false);
+            d.run_for(SEC, 10 * MS);
+            d.run("snap".into());
+            let after = d.s.last_snapshot.clone();
+            let replies = d.s.all_sent[sent_before..].iter().filter(|x| x.to == who && !matches!(x.msg.message_type(), MessageType::Request(_))).count();
+            if let (Some(b), Some(a)) = (before, after) {
+                let tables_changed = b.routing_table.iter().map(|x| x.1).collect::<Vec<_>>() != a.routing_table.iter().map(|x| x.1).collect::<Vec<_>>()
+                    || b.signed_peers_routing_table.iter().map(|x| x.1).collect::<Vec<_>>() != a.signed_peers_routing_table.iter().map(|x| x.1).collect::<Vec<_>>();
+                if is_banned {
+                    if replies > 0 {
+                        d.out.violation("C03", "vetoed-request-answered", format!("{replies} replies went to {who}, whose requests the request filter vetoes"));
+                    }
+                    if tables_changed || b.store_sizes != a.store_sizes {
+                        d.out.violation("C03", "vetoed-request-changed-state", format!("requests from {who} are vetoed by the request filter, yet after its find_node the routing tables hold {:?} / {:?} (before: {:?} / {:?})", a.routing_table.iter().map(|x| x.1).collect::<Vec<_>>(), a.signed_peers_routing_table.iter().map(|x| x.1).collect::<Vec<_>>(), b.routing_table.iter().map(|x| x.1).collect::<Vec<_>>(), b.signed_peers_routing_table.iter().map(|x| x.1).collect::<Vec<_>>()));
+                    }
+                } else if replies < 4 {
+                    d.out.violation("C03", "allowed-request-not-answered", format!("only {replies} of 4 requests from {who} were answered although the filter allows them"));
+                }
+            }
+        }
+        d.finish();
+        d.out.mark_distinct(fnv(format!("P{round}").as_bytes()));
+        d.out.count("request-filter-bans-an-address");
         d.s.shutdown();
     }
     // ---- F2: adaptive node confirmed at address A; then its peers report another address B that is
